@@ -28,6 +28,10 @@ class StepCap(BaseException):
     """Raised inside a simulated thread when the run exceeds its step budget."""
 
 
+class Deadlock(BaseException):
+    """Raised inside a simulated thread that can never get the lock it waits for."""
+
+
 class SeededDecider(object):
     """Draws every scheduling decision from the run's `schedule` stream."""
 
@@ -58,6 +62,9 @@ class SeededDecider(object):
     def at_exit(self, step, me, others):
         return self.rng.choice(others)
 
+    def at_blocked(self, step, me, others):
+        return self.rng.choice(others)
+
 
 class ReplayDecider(object):
     """Replays a recorded schedule [[step, thread], ...]."""
@@ -76,6 +83,12 @@ class ReplayDecider(object):
         return None
 
     def at_exit(self, step, me, others):
+        t = self.map.get(step)
+        if t is not None and t in others:
+            return t
+        return others[0]
+
+    def at_blocked(self, step, me, others):
         t = self.map.get(step)
         if t is not None and t in others:
             return t
@@ -135,6 +148,8 @@ class Sched(object):
         self.same_func_preempt = {}
         self.idents = {}
         self.active = False
+        self.lock_waits = 0
+        self.deadlocked = False
 
     # ---- pre-emption point -------------------------------------------------------------
     def point(self, func, line):
@@ -153,6 +168,27 @@ class Sched(object):
         self.states.add(tuple(self.funcs))
         if self.funcs[to] == func:
             self.same_func_preempt[func] = self.same_func_preempt.get(func, 0) + 1
+        self.current = to
+        self.sems[to].release()
+        self.sems[me].acquire()
+
+    # ---- blocked on a lock (simlock.SimLock) ----------------------------------------------
+    def is_current_sim_thread(self):
+        return self.active and self.idents.get(threading.get_ident()) == self.current and self.current >= 0
+
+    def blocked(self, spins):
+        """The running simulated thread cannot get a lock: another simulated thread must run."""
+        me = self.current
+        self.step += 1
+        self.lock_waits += 1
+        others = [i for i in range(self.n) if self.alive[i] and i != me]
+        if not others or spins > 20000:
+            # nobody else can release it (or everybody keeps waiting for everybody): a dead-lock
+            self.deadlocked = True
+            raise Deadlock()
+        to = self.decider.at_blocked(self.step, me, others)
+        self.taken.append([self.step, to])
+        self.switch_log.append([self.step, me, to, "<blocked-on-lock>", 0])
         self.current = to
         self.sems[to].release()
         self.sems[me].acquire()
@@ -182,7 +218,7 @@ class Sched(object):
             sys.settrace(self._gtrace)
         try:
             fn()
-        except StepCap:
+        except (StepCap, Deadlock):
             pass
         except BaseException:  # noqa: B902 - a harness bug inside a simulated thread
             self.errors.append(traceback.format_exc())
@@ -224,6 +260,9 @@ class Sched(object):
             codes = _code_objects(self.prefix)
             for c in codes:
                 mon.set_local_events(self.tool, c, mon.events.INSTRUCTION)
+        from . import simlock
+
+        simlock.ACTIVE = self
         self.active = True
         first = self.decider.first(list(range(self.n)))
         self.taken.append([0, first])
@@ -231,6 +270,7 @@ class Sched(object):
         self.sems[first].release()
         finished = self.done.wait(timeout)
         self.active = False
+        simlock.ACTIVE = None
         if mon is not None:
             for c in codes:
                 mon.set_local_events(self.tool, c, 0)
